@@ -259,22 +259,51 @@ Proof.
     intros r w2 [HD2 Hc2]. split; [exact HD2 | congruence].
 Qed.
 
-(* the closure of for_each panics: the Drain's destructor drops what is left *)
-Lemma call_or_drain_spec (E : env key V query cstate) cl c (w : world) :
+(* the rest of a Drain destroyed while unwinding: never panics, leaves an
+   empty well-formed register *)
+Lemma unwind_drain_spec (E : env key V query cstate) c (w : world) :
   DrainInv c (self w) ->
-  wp (call_or_drain E cl c) (fun _ w' => self w' = self w)
+  wp (unwind_drain E c)
+     (fun _ w' => WF (self w') /\ cap (self w') = cap (self w)) (fun _ => False) w.
+Proof.
+  intros (Hl & Hc & Hs). unfold unwind_drain.
+  eapply wp_mono; [apply unwind_range_spec | |]; cbn beta; [| |tauto].
+  - intros j Hj. apply Hs. unfold cursor_len in Hj. lia.
+  - intros _ w' (H1 & H2 & _). split; [|exact H2].
+    split; [lia | intros i Hi; lia].
+Qed.
+
+(* the closure of for_each panics: its frame destroys the item, then the
+   Drain's destructor drops what is left *)
+Lemma call_or_drain_spec (E : env key V query cstate) cl p c (w : world) :
+  DrainInv c (self w) ->
+  wp (call_or_drain E cl p c) (fun _ w' => self w' = self w)
      (fun w' => WF (self w') /\ cap (self w') = cap (self w)) w.
 Proof.
-  intros HD.
-  assert (Hf : frame (bind (@emit key V cstate [EvCall 4]) (fun _ => cbk cl))).
-  { apply frame_bind; [apply frame_emit | intros _; apply frame_cbk]. }
-  specialize (Hf w). unfold wp in Hf |- *. unfold call_or_drain.
-  destruct (bind (@emit key V cstate [EvCall 4]) (fun _ => cbk cl) w) as [a w1|w1|];
-    [exact Hf | | exact Hf].
-  assert (HD1 : DrainInv c (self w1)) by (rewrite Hf; exact HD).
-  pose proof (drain_drop_spec E c w1 HD1) as Hd. unfold wp in Hd.
-  destruct (drain_drop E c w1) as [u w2|w2|]; [| |exact Hd];
-    destruct Hd as (H1 & _ & H3); (split; [exact H1 | congruence]).
+  intros HD. unfold call_or_drain. apply wp_on_unwind.
+  apply wp_frame.
+  { apply frame_bind; [apply frame_emit|]. intros _.
+    apply frame_bind; [apply frame_cbk|]. intros _. apply frame_ret. }
+  - intros _ w1 Hs1. exact Hs1.
+  - intros w1 Hs1. apply wp_bind.
+    eapply wp_mono; [apply unwind_pair_nopanic | |]; cbn beta; [|tauto].
+    intros _ w2 Hs2.
+    eapply wp_mono; [apply unwind_drain_spec; rewrite Hs2, Hs1; exact HD | |]; cbn beta; [|tauto].
+    intros _ w3 [Hw3 Hc3]. split; [exact Hw3 | congruence].
+Qed.
+
+(* destroying an item the Drain has handed out; a panicking Drop unwinds
+   through the Drain *)
+Lemma drop_or_drain_spec (E : env key V query cstate) p c (w : world) :
+  DrainInv c (self w) ->
+  wp (on_unwind (unwind_drain E c) (drop_pair E p)) (fun _ w' => self w' = self w)
+     (fun w' => WF (self w') /\ cap (self w') = cap (self w)) w.
+Proof.
+  intros HD. apply wp_on_unwind. apply wp_frame; [apply frame_drop_pair | |].
+  - intros _ w1 Hs1. exact Hs1.
+  - intros w1 Hs1.
+    eapply wp_mono; [apply unwind_drain_spec; rewrite Hs1; exact HD | |]; cbn beta; [|tauto].
+    intros _ w3 [Hw3 Hc3]. split; [exact Hw3 | congruence].
 Qed.
 
 Lemma drain_for_each_spec (E : env key V query cstate) cl : forall fuel c cnt (w : world),
@@ -288,6 +317,23 @@ Proof.
     assert (H1 : inv_post w w1) by (unfold inv_post; split; [eapply DrainInv_WF; eauto | exact Hc1]).
     destruct o as [p|]; [|apply wp_ret; exact H1].
     apply wp_bind. eapply wp_mono; [apply call_or_drain_spec; exact HD1 | |]; cbn beta.
+    + intros _ w2 Hs2. eapply wp_mono; [apply IH; rewrite Hs2; exact HD1 | |]; cbn beta.
+      * intros _ w3 H3. eapply inv_post_trans; [exact H1|]. eapply inv_post_base; eauto.
+      * intros w3 H3. eapply inv_post_trans; [exact H1|]. eapply inv_post_base; eauto.
+    + intros w2 [Hw2 Hc2]. unfold inv_post. split; [exact Hw2 | congruence].
+Qed.
+
+Lemma drain_count_spec (E : env key V query cstate) : forall fuel c cnt (w : world),
+  DrainInv c (self w) ->
+  wp (drain_count E fuel c cnt) (fun _ => inv_post w) (inv_post w) w.
+Proof.
+  induction fuel as [|f IH]; intros c cnt w HD; cbn [drain_count].
+  - apply wp_ret. apply inv_post_refl; [eapply DrainInv_WF; eauto | reflexivity].
+  - apply wp_bind. eapply wp_mono; [apply drain_next_spec; exact HD | |]; cbn beta; [|tauto].
+    intros [o c'] w1 (HD1 & Hc1 & _). cbn [snd] in HD1.
+    assert (H1 : inv_post w w1) by (unfold inv_post; split; [eapply DrainInv_WF; eauto | exact Hc1]).
+    destruct o as [p|]; [|apply wp_ret; exact H1].
+    apply wp_bind. eapply wp_mono; [apply drop_or_drain_spec; exact HD1 | |]; cbn beta.
     + intros _ w2 Hs2. eapply wp_mono; [apply IH; rewrite Hs2; exact HD1 | |]; cbn beta.
       * intros _ w3 H3. eapply inv_post_trans; [exact H1|]. eapply inv_post_base; eauto.
       * intros w3 H3. eapply inv_post_trans; [exact H1|]. eapply inv_post_base; eauto.
@@ -324,7 +370,12 @@ Proof.
         eapply wp_mono; [apply drain_for_each_spec; exact HD4 | |]; cbn beta.
         -- intros n w5 H5. apply wp_ret. apply wp_ret. eapply inv_post_trans; eauto.
         -- intros w5 H5. eapply inv_post_trans; eauto.
-      * apply wp_ret. apply wp_ret. exact H4.
+      * destruct (N.eqb fate 3).
+        -- apply wp_bind.
+           eapply wp_mono; [apply drain_count_spec; exact HD4 | |]; cbn beta.
+           ++ intros n w5 H5. apply wp_ret. apply wp_ret. eapply inv_post_trans; eauto.
+           ++ intros w5 H5. eapply inv_post_trans; eauto.
+        -- apply wp_ret. apply wp_ret. exact H4.
   - intros w1 Hs1. apply inv_post_refl; auto.
 Qed.
 
@@ -521,38 +572,90 @@ Qed.
 Lemma frame_dbg_into kind alt : frame (dbg_into kind alt).
 Proof. intros w. reflexivity. Qed.
 
+Lemma frame_unwind_item sc kind p : frame (unwind_item sc kind p).
+Proof.
+  unfold unwind_item. destruct (N.eqb kind 1); [apply frame_unwind_key|].
+  destruct (N.eqb kind 2); [apply frame_unwind_val | apply frame_unwind_pair].
+Qed.
+
+Lemma frame_into_rest sc kind p : frame (into_rest sc kind p).
+Proof.
+  unfold into_rest. destruct (N.eqb kind 1); [apply frame_drop_key|].
+  destruct (N.eqb kind 2); [apply frame_drop_val | apply frame_drop_pair].
+Qed.
+
+Lemma frame_closure_call {V} (cl : cstate -> ans * cstate) :
+  frame (bind (@emit key V cstate [EvCall 4]) (fun _ => bind (cbk cl) (fun _ => ret tt))).
+Proof.
+  apply frame_bind; [apply frame_emit|]. intros _.
+  apply frame_bind; [apply frame_cbk|]. intros _. apply frame_ret.
+Qed.
+
 Lemma keeps_into_for_each sc kind : forall fuel cnt, keeps (into_for_each sc kind fuel cnt).
 Proof.
   induction fuel as [|f IH]; intros cnt; cbn [into_for_each].
   - apply keeps_ret.
   - apply keeps_bind; [apply keeps_into_iter_next|]. intros [p|]; [|apply keeps_ret].
     apply keeps_bind; [apply frame_keeps; apply frame_into_steps_item|]. intros _.
-    apply keeps_bind; [apply frame_keeps; apply frame_emit|]. intros _.
-    apply keeps_bind; [apply frame_keeps; apply frame_cbk|]. intros _. apply IH.
+    apply keeps_bind.
+    { apply frame_keeps. apply frame_on_unwind; [apply frame_unwind_item | apply frame_closure_call]. }
+    intros _. apply IH.
+Qed.
+
+Lemma keeps_into_count sc kind : forall fuel cnt, keeps (into_count sc kind fuel cnt).
+Proof.
+  induction fuel as [|f IH]; intros cnt; cbn [into_count].
+  - apply keeps_ret.
+  - apply keeps_bind; [apply keeps_into_iter_next|]. intros [p|]; [|apply keeps_ret].
+    apply keeps_bind; [apply frame_keeps; apply frame_into_steps_item|]. intros _.
+    apply keeps_bind; [apply frame_keeps; apply frame_into_rest|]. intros _. apply IH.
+Qed.
+
+(* a [keeps] computation on a local container under finally_drop: a normal
+   return leaves it well-formed, unwinding is safe *)
+Lemma wp_finally_keeps {V A} (E : env key V query cstate) (c : M key V cstate A)
+      (w : world key V cstate) :
+  keeps c -> WF (self w) ->
+  wp (finally_drop E c) (fun _ w' => WF (self w')) (fun _ => True) w.
+Proof.
+  intros Hc Hw. apply wp_finally_drop.
+  eapply wp_mono; [apply Hc; exact Hw | |]; cbn beta.
+  - intros _ w' [H _]. exact H.
+  - intros w' [H _]. exact H.
 Qed.
 
 Lemma into_session_safe sc kind take fate (w : mworld) :
   WF (self w) -> wp (into_session sc kind take fate) (fun _ _ => True) (fun _ => True) w.
 Proof.
   intros Hw. unfold into_session. apply wp_bind.
-  eapply wp_mono; [apply keeps_into_steps; exact Hw | |]; cbn beta; [|auto].
-  intros acc w1 [Hw1 _].
-  apply wp_frame_bind; [apply frame_dbg_into | | auto]. intros d0 w2 Hs2.
-  apply wp_frame_bind; [apply frame_dbg_into | | auto]. intros d1 w3 Hs3.
-  assert (Hw3 : WF (self w3)) by (rewrite Hs3, Hs2; exact Hw1).
-  apply wp_bind. apply wp_get_len. apply wp_bind.
+  eapply wp_mono; [apply wp_finally_keeps; [|exact Hw] | |]; cbn beta; [| |auto].
+  { apply keeps_bind; [apply keeps_into_steps|]. intros acc.
+    apply keeps_bind; [apply frame_keeps; apply frame_dbg_into|]. intros d0.
+    apply keeps_bind; [apply frame_keeps; apply frame_dbg_into|]. intros d1.
+    apply keeps_bind; [apply frame_keeps; apply frame_get_len|]. intros l. apply keeps_ret. }
+  intros [[[acc d0] d1] l] w3 Hw3. apply wp_bind.
+  assert (Hfin : forall (t : list N) (w' : mworld),
+            wp (ret (acc ++ d0 ++ d1 ++ [nn l] ++ t) : Mm (list N)) (fun _ _ => True) (fun _ => True) w').
+  { intros t w'. apply wp_ret. exact I. }
   destruct (N.eqb fate 0).
   - apply wp_bind.
     eapply wp_mono; [apply drop_map_safe; exact Hw3 | |]; cbn beta; [|auto].
-    intros _ w4 _. apply wp_ret. apply wp_ret. exact I.
+    intros _ w4 _. apply wp_ret. apply Hfin.
   - destruct (N.eqb fate 2).
     + apply wp_bind.
-      eapply wp_mono; [apply wp_finally_drop with (Qn := fun _ _ => True) | |]; cbn beta.
-      * eapply wp_mono; [apply keeps_into_for_each; exact Hw3 | |]; cbn beta; [auto|].
-        intros w' [H _]. exact H.
-      * intros n w4 _. apply wp_ret. apply wp_ret. exact I.
-      * auto.
-    + apply wp_ret. apply wp_ret. exact I.
+      eapply wp_mono; [apply wp_finally_keeps; [apply keeps_into_for_each | exact Hw3] | |];
+        cbn beta; [|auto].
+      intros n w4 _. apply wp_ret. apply Hfin.
+    + destruct (N.eqb fate 3).
+      * destruct (N.eqb kind 0).
+        -- apply wp_bind.
+           eapply wp_mono; [apply drop_map_safe; exact Hw3 | |]; cbn beta; [|auto].
+           intros _ w4 _. apply wp_ret. apply Hfin.
+        -- apply wp_bind.
+           eapply wp_mono; [apply wp_finally_keeps; [apply keeps_into_count | exact Hw3] | |];
+             cbn beta; [|auto].
+           intros n w4 _. apply wp_ret. apply Hfin.
+      * apply wp_ret. apply Hfin.
 Qed.
 
 Lemma keeps_op_into_iter sc kind take fate :
@@ -964,8 +1067,17 @@ Proof.
   induction fuel as [|f IH]; intros cnt; cbn [set_into_for_each].
   - apply keeps_ret.
   - apply keeps_bind; [apply keeps_into_iter_next|]. intros [p|]; [|apply keeps_ret].
-    apply keeps_bind; [apply frame_keeps; apply frame_emit|]. intros _.
-    apply keeps_bind; [apply frame_keeps; apply frame_cbk|]. intros _. apply IH.
+    apply keeps_bind.
+    { apply frame_keeps. apply frame_on_unwind; [apply frame_unwind_key | apply frame_closure_call]. }
+    intros _. apply IH.
+Qed.
+
+Lemma keeps_set_into_count sc : forall fuel cnt, keeps (set_into_count sc fuel cnt).
+Proof.
+  induction fuel as [|f IH]; intros cnt; cbn [set_into_count].
+  - apply keeps_ret.
+  - apply keeps_bind; [apply keeps_into_iter_next|]. intros [p|]; [|apply keeps_ret].
+    apply keeps_bind; [apply frame_keeps; apply frame_drop_key|]. intros _. apply IH.
 Qed.
 
 Lemma keeps_op_s_into_iter sc take fate :
@@ -975,6 +1087,8 @@ Lemma keeps_op_s_into_iter sc take fate :
              tail <- (if N.eqb fate 0 then (drop_map (env_set sc) ;; ret [])
                       else if N.eqb fate 2
                            then (n <- finally_drop (env_set sc) (set_into_for_each sc (S l) 0) ;; ret [nn n])
+                      else if N.eqb fate 3
+                           then (n <- finally_drop (env_set sc) (set_into_count sc (S l) 0) ;; ret [nn n])
                            else ret []) ;;
              ret (acc ++ [nn l] ++ tail)) ;;
          ret body).
@@ -995,12 +1109,17 @@ Proof.
       * intros w2 _. apply Hfin.
     + destruct (N.eqb fate 2).
       * apply wp_bind.
-        eapply wp_mono; [apply wp_finally_drop with (Qn := fun _ _ => True) | |]; cbn beta.
-        -- eapply wp_mono; [apply keeps_set_into_for_each; exact Hw1 | |]; cbn beta; [auto|].
-           intros w' [H _]. exact H.
+        eapply wp_mono; [apply wp_finally_keeps; [apply keeps_set_into_for_each | exact Hw1] | |];
+          cbn beta.
         -- intros n w2 _. apply wp_ret. apply wp_ret. apply wp_ret. apply Hfin.
         -- intros w2 _. apply Hfin.
-      * apply wp_ret. apply wp_ret. apply wp_ret. apply Hfin.
+      * destruct (N.eqb fate 3).
+        -- apply wp_bind.
+           eapply wp_mono; [apply wp_finally_keeps; [apply keeps_set_into_count | exact Hw1] | |];
+             cbn beta.
+           ++ intros n w2 _. apply wp_ret. apply wp_ret. apply wp_ret. apply Hfin.
+           ++ intros w2 _. apply Hfin.
+        -- apply wp_ret. apply wp_ret. apply wp_ret. apply Hfin.
   - intros w1 _. apply Hfin.
 Qed.
 
@@ -1569,12 +1688,13 @@ Proof.
     intros r w1 (H1 & H2 & _). auto.
   - apply wp_bind. eapply wp_mono; [apply drain_next_spec; exact HD | |]; cbn beta; [|tauto].
     intros [o c'] w1 (HD1 & Hc1 & _). cbn [snd] in HD1. destruct o as [p|].
-    + apply wp_frame_bind; [apply frame_drop_pair | |].
+    + apply wp_bind.
+      eapply wp_mono; [apply drop_or_drain_spec; exact HD1 | |]; cbn beta.
       * intros _ w2 Hs2.
         eapply wp_mono; [apply IH; rewrite Hs2; exact HD1 | |]; cbn beta.
         -- intros r w3 [H3 Hc3]. split; [exact H3 | congruence].
         -- intros w3 [H3 Hc3]. split; [exact H3 | congruence].
-      * intros w2 Hs2. rewrite Hs2. split; [eapply DrainInv_WF; eauto | exact Hc1].
+      * intros w2 [Hw2 Hc2]. split; [exact Hw2 | congruence].
     + apply wp_ret. cbn [snd]. auto.
 Qed.
 
@@ -1633,16 +1753,17 @@ Lemma into_nth_session_safe (E : env key V query cstate) pre nk (w : world) :
   WF (self w) ->
   wp (into_nth_session E item rest pre nk) (fun _ _ => True) (fun _ => True) w.
 Proof.
-  intros Hw. unfold into_nth_session.
-  apply wp_keeps_bind_true; [apply keeps_i_skip | exact Hw |]. intros _ w1 Hw1.
-  apply wp_keeps_bind_true; [apply frame_keeps; apply frame_get_len | exact Hw1 |]. intros l1 w2 Hw2.
-  apply wp_keeps_bind_true; [apply keeps_i_nth | exact Hw2 |]. intros r w3 Hw3.
-  apply wp_keeps_bind_true; [apply frame_keeps; apply frame_get_len | exact Hw3 |]. intros l2 w4 Hw4.
-  apply wp_keeps_bind_true; [apply keeps_i_nth | exact Hw4 |]. intros r2 w5 Hw5.
-  apply wp_keeps_bind_true; [apply frame_keeps; apply frame_get_len | exact Hw5 |]. intros l3 w6 Hw6.
-  apply wp_bind.
-  eapply wp_mono; [apply drop_map_safe; exact Hw6 | |]; cbn beta; [|auto].
-  intros _ w7 _. apply wp_ret. exact I.
+  intros Hw. unfold into_nth_session. apply wp_bind.
+  eapply wp_mono; [apply wp_finally_keeps; [|exact Hw] | |]; cbn beta; [| |auto].
+  { apply keeps_bind; [apply keeps_i_skip|]. intros _.
+    apply keeps_bind; [apply frame_keeps; apply frame_get_len|]. intros l1.
+    apply keeps_bind; [apply keeps_i_nth|]. intros r.
+    apply keeps_bind; [apply frame_keeps; apply frame_get_len|]. intros l2.
+    apply keeps_bind; [apply keeps_i_nth|]. intros r2.
+    apply keeps_bind; [apply frame_keeps; apply frame_get_len|]. intros l3. apply keeps_ret. }
+  intros body w1 Hw1. apply wp_bind.
+  eapply wp_mono; [apply drop_map_safe; exact Hw1 | |]; cbn beta; [|auto].
+  intros _ w2 _. apply wp_ret. exact I.
 Qed.
 
 Lemma keeps_op_into_nth (E : env key V query cstate) pre nk :
@@ -1660,12 +1781,6 @@ Qed.
 
 End IntoNth.
 End Nth.
-
-Lemma frame_into_rest sc kind p : frame (into_rest sc kind p).
-Proof.
-  unfold into_rest. destruct (N.eqb kind 1); [apply frame_drop_key|].
-  destruct (N.eqb kind 2); [apply frame_drop_val | apply frame_drop_pair].
-Qed.
 
 (* ------------------------------------------------------------------ *)
 (* 6. the history-level theorems                                       *)
@@ -1796,6 +1911,13 @@ Proof.
   apply okobs_ne3. apply okobs_app. exact Hok.
 Qed.
 
+Lemma censor_not_3 ids obs : obs <> [3%N] -> censor ids obs <> [3%N].
+Proof.
+  intros H. destruct obs as [|[|[p|[p|p|]|]] t]; try exact H.
+  unfold censor. destruct (split_at 8888 t) as [pst ev]. destruct (split_at 8889 ev) as [dr cl].
+  discriminate.
+Qed.
+
 Lemma run_safe_gen debug sc ops : forall x,
   WFx x -> (forall o, In o ops -> forall x', contract_ok debug o x') ->
   Forall (fun obs => obs <> [3%N]) (run_ops debug sc ops x).
@@ -1804,7 +1926,7 @@ Proof.
   - constructor; [apply teardown_safe; exact Hx | constructor].
   - destruct (step_safe_obs debug sc o x Hx (Hc o (or_introl eq_refl) x)) as (H1 & _ & H3).
     destruct (step debug sc o x) as [obs x']. cbn [fst snd] in H1, H3.
-    constructor; [exact H3|]. apply IH; [exact H1|].
+    constructor; [apply censor_not_3; exact H3|]. apply IH; [exact H1|].
     intros o' Ho'. apply Hc. right. exact Ho'.
 Qed.
 
